@@ -30,6 +30,11 @@ WEIGHTS = {"p_create": 0.55, "p_edit": 0.2, "p_ro": 0.0, "nested": 0.5, "sf": 0.
 
 def generate(rng, tier):
     sc = explore.generate(rng, tier, WEIGHTS, hostile=0.55)
+    if rng.random() < 0.2:
+        # a multi-generation history with changing formats, then flatten: dates of different generations in one record
+        sc["ops"] += [scen.cmd("create", "@R", *gen.fmt_args(gen.pick_formats(rng, 1, 2))), {"op": "advance", "us": 3_600_000_000},
+                      scen.cmd("create", "@R", *gen.fmt_args(gen.pick_formats(rng, 1, 3))), {"op": "advance", "us": 86_400_000_000},
+                      scen.cmd("flatten", "@R", "@S/flat_" + str(rng.randrange(99)))]
     if rng.random() < 0.35:
         # a rename of a file with a hostile name followed by create -dr: previous paths with spaces / specials
         src = rng.choice([" leading", "trailing ", "amp&ersand.txt", "less<than", "ünï cödé.txt", "with space.txt", "]]>cdata.txt"])
@@ -263,6 +268,24 @@ def monitor(ctx, st):
                     if g not in m["patterns"]:
                         ctx.violate({"kind": "value-differs-from-input", "cause": "pattern"}, f"{rel}: -i {g!r} not in {m['patterns']}")
                         return
+        if name == "flatten":
+            # every digest of a packing list comes from the source history together with its hash date
+            src = {}
+            for hr in observe.find_histories(w.expand(argv[1]))[:1]:
+                for num, _, sm in observe.HistoryView(hr).generations:
+                    for sr in sm["files"]:
+                        for e in sr["entries"]:
+                            if e["action"] != "failed":
+                                src.setdefault((sr["path"], e["fmt"]), (e["digest"], _iso(e["hashdate"]) if e["hashdate"] else None))
+            for ir in m["files"]:
+                for e in ir["entries"]:
+                    want = src.get((ir["path"], e["fmt"]))
+                    got = (e["digest"], _iso(e["hashdate"]) if e["hashdate"] else None)
+                    if want is not None and want[1] not in (None, "unparsable") and (got[0] != want[0] or got[1] is None or got[1][0] != want[1][0]):
+                        ctx.violate({"kind": "value-differs-from-input", "cause": "flatten-hashdate" if got[0] == want[0] else "flatten-digest"},
+                                    f"{rel} {ir['path']!r} {e['fmt']}: packing list has {got}, source history recorded {want}")
+                        return
+            ctx.probe("flatten_values_compared_with_source")
         if m["records"] or m["references"]:
             ctx.nontrivial = True
         if any(r.get("previousPath") for r in m["records"]):
